@@ -116,6 +116,9 @@ add("C05", "formula", "exploration", "runtime monitor: invariant at a hook (ever
 add("C08", "formula", "exploration", "runtime monitor: invariant at quiescent points (scan of every stored and shown number for NaN/infinity) after evaluation, after to_bytes/from_bytes and after xlsx import",
     "A sweep of every built-in function (enumerated through the verif_hooks re-export) with threshold arguments, ~120 calls that overflow by design in scalar and array form, overflowing arithmetic in scalar / array-literal / range / SEQUENCE context, typed numbers beyond the double range and xlsx files with NaN/inf/1E+999 in <v>; after each, every cell is scanned.",
     "Arguments of the generic sweep are kept below magnitudes that could become a gigantic size or loop bound (slow or memory-exhausting evaluations are not this property's subject; inputs that panic are counted and left to C11/C25). A case that does not finish in 20 s is abandoned and counted as inconclusive.")
+add("C07", "formula", "exploration", "runtime monitor: differential comparison of the values of one set of inputs entered along eight routes (entry order, evaluation cadence, save-and-reload, repeated evaluation)",
+    "The same inputs are entered in order, reversed, shuffled, with evaluation after every edit or once, with to_bytes/from_bytes in the middle or at the end, and evaluated twice; all routes must show identical values in every cell, spills included.",
+    "Dynamic arrays are placed so that two arrays never compete for the same cells and no cycle closes through a spill (which array wins a collision depends on history in every spreadsheet); a spill blocked by plain content is generated. The exact signature of the listed finding is tolerated only for that replay's shape.")
 
 NOT_YET = {}
 
